@@ -18,6 +18,7 @@ import SpsdkVerif.Proofs.AhabVerify
 import SpsdkVerif.Proofs.AhabRom
 import SpsdkVerif.Proofs.AhabParse
 import SpsdkVerif.Proofs.AhabRom2
+import SpsdkVerif.Proofs.AhabRom3
 
 namespace SpsdkVerif.C06
 open SpsdkVerif SpsdkVerif.Misc SpsdkVerif.Ahab SpsdkVerif.AhabVerify
@@ -340,6 +341,92 @@ theorem rom_accepts_container (c : CryptoOps) (hc : CryptoLaws c) (img : Image) 
                  k * 0x400 + sigBlockOffset .v1 u.placed.length + (sbLayout .v1 u.cont.sb).sigOff + 8, u.cont.sb.signature.length,
                  c.hash .sha256 u.cont.sb.srk⟩⟩ :=
   checkContainer_accepts_v1 c hc img hv bin maxC maxI hexp hA us hus k u hk hblob t ht hte hsig hset hrev hn hent
+
+/-- `rom_accepts`, signature-block part for an UNSIGNED container (SRK set "none", no SRK table, no signature), both
+    container generations: accepted, SRK table and signature offsets are 0 and NO signature obligation is reported - the
+    checker never reports "nothing to verify" for a container whose SRK set is not "none" (see `rom_accepts_file`) -/
+theorem rom_accepts_sigblock_unsigned (c : CryptoOps) (v : Ver) (maxC maxI : Nat) (bin cb : Bytes) (base : Nat) (cont : Container)
+    (iaes : List Iae) (hcb : Spec.AhabRom.slice bin base cb.length = cb) (hexp : exportContainerWith v cont iaes = .ok cb)
+    (hb : BlobLenOK cont.sb) (hset : cont.srkSet = 0) (hsrk : cont.sb.srk = []) (hsig : cont.sb.signature = []) :
+    Spec.AhabRom.checkSigBlock c (romParams v maxC maxI) bin base cb.length (sigBlockOffset v iaes.length) cont.flags =
+      .ok (0, 0, (sbLayout v cont.sb).certOff, (sbLayout v cont.sb).blobOff, (sbLayout v cont.sb).length, none) :=
+  checkSigBlock_accepts_unsigned c v maxC maxI bin cb base cont iaes hcb hexp hb hset hsrk hsig
+
+/-- `rom_accepts`, signature-block part (version 2, signed; the SRK table array is one opaque region for the checker): accepted;
+    the report names the signed range `[base, base + sigblock offset + signature offset)`, the SRK table array region
+    `[srk offset, signature offset)` and the first signature -/
+theorem rom_accepts_sigblock_v2 (c : CryptoOps) (maxC maxI : Nat) (bin cb : Bytes) (base : Nat) (cont : Container) (iaes : List Iae)
+    (hcb : Spec.AhabRom.slice bin base cb.length = cb) (hexp : exportContainerWith .v2 cont iaes = .ok cb)
+    (hb : BlobLenOK cont.sb) (hsrk : cont.sb.srk ≠ []) (hsig : cont.sb.signature ≠ [])
+    (hset : cont.srkSet ≠ 0) (hrev : (cont.revokeMask >>> cont.usedSrkId) % 2 = 0) :
+    Spec.AhabRom.checkSigBlock c (Spec.AhabRom.paramsV2 maxC maxI) bin base cb.length (sigBlockOffset .v2 iaes.length) cont.flags =
+      .ok ((sbLayout .v2 cont.sb).srkOff, (sbLayout .v2 cont.sb).sigOff, (sbLayout .v2 cont.sb).certOff, (sbLayout .v2 cont.sb).blobOff,
+           (sbLayout .v2 cont.sb).length,
+           some ⟨sigBlockOffset .v2 iaes.length + (sbLayout .v2 cont.sb).sigOff,
+                 base + sigBlockOffset .v2 iaes.length + (sbLayout .v2 cont.sb).srkOff,
+                 (sbLayout .v2 cont.sb).sigOff - (sbLayout .v2 cont.sb).srkOff, 0, 0, cont.usedSrkId,
+                 base + sigBlockOffset .v2 iaes.length + (sbLayout .v2 cont.sb).sigOff + 8, cont.sb.signature.length, []⟩) :=
+  checkSigBlock_accepts_v2 c maxC maxI bin cb base cont iaes hcb hexp hb hsrk hsig hset hrev
+
+/-- `rom_accepts`, THE WHOLE FILE, for every `c` with `CryptoLaws c`, both container generations, any number of containers and
+    images: `ahabCheck` of the independent checker accepts an exported image.  Every slot `k < n` is recognised as a container,
+    starts behind the previous one and passes `checkContainer` (header fields, every entry: placement / hash / decryption,
+    signature block); no later slot is taken for a container; all containers and images are pairwise disjoint.  The report
+    gives, per container: index, base `k * CONTAINER_SIZE`, flags / sw / fuse version as configured, the images, the container
+    bytes as exported, and - exactly when the SRK set is not "none" - the signature obligation with the signed range
+    `[base, base + sigblock offset + signature offset)`, the position and length of the signature bytes, the selected SRK and
+    (version 1) the SHA-256 of the SRK table.
+    Hypotheses: each container is unsigned, or signed by a key that is not revoked (`SigKind`: v1 SRK table / v2 SRK table
+    array), and fits its slot; entries outside the open finding C06-encrypted-size-alignment and not "encrypted flag without
+    blob"; no explicit offset behind the cursor (`ExplicitAhead`, true when all offsets are automatic); the unused slots do
+    not happen to hold a container head (`hph`); the containers end before the first image address (`hstart`, automatic for
+    version 1: `containers_before_images_v1`). -/
+theorem rom_accepts_file (c : CryptoOps) (hc : CryptoLaws c) (img : Image) (bin : Bytes) (maxC maxI : Nat)
+    (hexp : img.export c = .ok bin) (hA : 0 < img.chip.imageAlignment)
+    (us : List UContainer) (hus : img.update c = .ok us) (hne : us ≠ []) (hmax : us.length ≤ maxC)
+    (hcont : ∀ u ∈ us, BlobLenOK u.cont.sb ∧ u.placed.length ≤ maxI ∧ SigKind img.ver u.cont ∧
+      (∀ cb, u.export img.ver = .ok cb → cb.length ≤ img.ver.containerSize) ∧
+      ∀ (i : Nat) (p : Placed), u.placed[i]? = some p → 0 < p.ready.size ∧
+        ¬ (Iae.isEncrypted img.ver p.entry.flags = true ∧ u.cont.sb.blob.isSome = false) ∧
+        (Iae.isEncrypted img.ver p.entry.flags = true → u.cont.sb.blob.isSome = true →
+          p.ready.size = p.ready.image.length ∧ (storedImage img.chip p.entry.data).length % 16 = 0 ∧ u.cont.dek.isSome = true))
+    (hph : ∀ m, us.length ≤ m → m < maxC →
+      Spec.AhabRom.looksLikeContainer (romParams img.ver maxC maxI) bin (m * img.ver.containerSize) = false)
+    (ha : ExplicitAhead img.chip img.ver (img.chip.startAddr img.ver) (allPlaced us))
+    (hstart : us.length * img.ver.containerSize ≤ img.chip.startAddr img.ver) :
+    ∃ reps, Spec.AhabRom.ahabCheck c (romParams img.ver maxC maxI) bin (us.map dekOf) = .ok reps ∧ reps.length = us.length ∧
+      ∀ k u r, us[k]? = some u → reps[k]? = some r →
+        r.index = k ∧ r.base = k * img.ver.containerSize ∧ r.flags = u.cont.flags ∧ r.swVersion = u.cont.swVersion ∧
+        r.fuseVersion = u.cont.fuseVersion ∧ r.images = u.placed.map (repOf img.ver) ∧
+        u.export img.ver = .ok (Spec.AhabRom.slice bin r.base r.length) ∧
+        (r.sig = none ↔ u.cont.srkSet = 0) ∧
+        ∀ s, r.sig = some s → s.signedLen = sigBlockOffset img.ver u.placed.length + (sbLayout img.ver u.cont.sb).sigOff ∧
+          s.sigOff = r.base + s.signedLen + 8 ∧ s.sigLen = u.cont.sb.signature.length ∧ s.usedSrk = u.cont.usedSrkId ∧
+          (img.ver = .v1 → s.srkHash = c.hash .sha256 u.cont.sb.srk) :=
+  ahabCheck_accepts c hc img bin maxC maxI hexp hA us hus hne hmax hcont hph ha hstart
+
+/-- `hstart` of `rom_accepts_file` for container version 1: up to four 0x400 slots end before both start addresses
+    (0x2000 / NAND 0x1C00), read from the generated constants -/
+theorem containers_before_images_v1 (ch : Chip) (n : Nat) (hn : n ≤ 4) : n * Ver.v1.containerSize ≤ ch.startAddr .v1 := by
+  have e1 : Ver.v1.containerSize = 1024 := rfl
+  unfold Chip.startAddr
+  rw [e1]
+  split
+  · have : Ver.v1.startAddrNand = 7168 := rfl
+    omega
+  · have : Ver.v1.startAddr = 8192 := rfl
+    omega
+
+/-- ... and for version 2 with the regular start address (0xC000 = three 0x4000 slots).  For the NAND start address (0xBC00)
+    a THIRD container longer than 0x3C00 bytes would reach into the first image: not a theorem, hence the hypothesis. -/
+theorem containers_before_images_v2 (ch : Chip) (n : Nat) (hn : n ≤ 3) (hnand : ch.isNand = false) :
+    n * Ver.v2.containerSize ≤ ch.startAddr .v2 := by
+  have e1 : Ver.v2.containerSize = 16384 := rfl
+  unfold Chip.startAddr
+  rw [hnand, e1]
+  have : Ver.v2.startAddr = 49152 := rfl
+  simp only [Bool.false_eq_true, if_false]
+  omega
 
 /-! ## 7. the verifier's range records -/
 
